@@ -275,6 +275,9 @@ where
     fn persist_op(op: &Self::Op) -> Option<(Result<String, String>, Option<Self::Op>)> {
         Some(json_roundtrip(op))
     }
+    fn shared_live_dot(a: &Self::S, b: &Self::S) -> Option<bool> {
+        Some(crate::sut::orswot::shared_dot(to_tree(a).field("entries"), to_tree(b).field("entries"), |e| e.field("clock").clone()))
+    }
     fn op_dot(op: &Self::Op) -> Option<String> {
         match op {
             MapOp::Up { dot: d, .. } => Some(dot(d)),
